@@ -19,7 +19,6 @@ package segread
 
 import (
 	"fmt"
-	"io"
 	"os"
 	"sort"
 	"sync"
@@ -203,11 +202,10 @@ func (trr *TimeRangeReader) readAllTimestampsForBlock(blockNum uint16) error {
 	checksumFile := &utils.ChecksumFile{Fd: trr.timeFD}
 	_, err = checksumFile.ReadAt(trr.blockReadBuffer[:cOffLen.Length], cOffLen.Offset)
 	if err != nil {
-		if err != io.EOF {
-			trr.loadedBlock = false
-			return err
-		}
-		return nil
+		// a short read (io.EOF) means the file is truncated: the block must not be
+		// answered from whatever an earlier block left in the buffers
+		trr.loadedBlock = false
+		return err
 	}
 
 	rawTSVal := trr.blockReadBuffer[:cOffLen.Length]
